@@ -1,10 +1,15 @@
 """C10 - the enumerated space: type grammar, value pools, declared defaults, parser shapes, input channels.
 
-A *parser spec* is a JSON object {"shape": S, "type": T, "default": D, "dform": "raw"|"typed", "mode": M}:
+A *parser spec* is a JSON object {"shape": S, "type": T, "default": D, "dform": "raw"|"typed"|"native", "mode": M
+[, "dcf": true] [, "ambient": V] [, "enable_path": true]}:
   T  a type spec - a leaf name or [constructor, arg specs...]
   D  a raw JSON value declared as default, or "__unset__";  dform says whether the parser gets the raw value
-     (the way users write `lr: float = 1`, `size: Tuple[int, int] = [1, 2]`) or the typed object the library
-     itself makes of it (E.A, Path object, tuple, set, Decimal).
+     (the way users write `lr: float = 1`, `size: Tuple[int, int] = [1, 2]`), the typed object the library
+     itself makes of it (E.A, Path object, tuple, set, Decimal), or ("native") the Python object that the
+     descriptor D denotes, built by the Python constructor ({"__py__": ["timedelta", 0, 1, 500000]}).
+  ambient      the parser reads os.environ (default_env=True) and the variable of the target argument holds V (and a
+               sibling's variable a fixed text) for the whole life of the spec: first parse and all transitions
+  enable_path  the target argument is declared with enable_path=True: its value may be the path of a file holding it
 An *input* is [channel, value]; `render(spec, channel, value)` says what is handed to which parse method.
 Everything is rebuilt from these JSON values; nothing here imports jsonargparse at module import time.
 """
@@ -299,6 +304,133 @@ def defaults(spec):
     raise ValueError(spec)
 
 
+# -- native values ----------------------------------------------------------------------------------
+# Values given as *already typed Python objects*, built here with the Python constructors - never by the library
+# under test (the "typed" form of a declared default is what the library's own deserialiser makes of a raw value, so a
+# lossy deserialiser hides every state it cannot produce).  A descriptor is the JSON object {"__py__": [kind, args...]};
+# `realise` turns a JSON value with descriptors into the objects.  Covers the full value range of the Python type
+# (sub-second timedeltas, Decimals with exponent, negative / stepped ranges, ...), not only what a config text yields.
+
+
+def py(*a):
+    return {"__py__": list(a)}
+
+
+NATIVE = {
+    "E": [py("E", "A"), py("E", "B")], "EY": [py("EY", "null"), py("EY", "y")], "ES": [py("ES", "A")],
+    "pathlib.Path": [py("pathlib", "a/b"), py("pathlib", "."), py("pathlib", "/abs/x")], "PathLike": [py("pathlib", "a/b")],
+    "complex": [py("complex", 1.0, 2.0), py("complex", 0.0, -1.5), py("complex", 1e22, 0.0)],
+    "Decimal": [py("Decimal", "0.5"), py("Decimal", "1E+3"), py("Decimal", "0.1"), py("Decimal", "-0")],
+    "UUID": [py("UUID", "12345678123456781234567812345678"), py("UUID", "00000000000000000000000000000000")],
+    "timedelta": [py("timedelta", 0, 1, 500000), py("timedelta", 0, 0, 1), py("timedelta", 1, 0, 0), py("timedelta", -1, 86399, 999999),
+                  py("timedelta", 3, 3723, 4), py("timedelta", 0, 0, 0), py("timedelta", 400, 59, 250000), py("timedelta", 0, 90000, 0)],
+    "bytes": [py("bytes", "61"), py("bytes", ""), py("bytes", "00ff")], "bytearray": [py("bytearray", "61"), py("bytearray", "")],
+    "range": [py("range", 0, 3, 1), py("range", 1, 3, 1), py("range", 0, 10, 2), py("range", 5, 1, -1), py("range", 0, 0, 1)],
+    "Money": [py("Money", 5), py("Money", -3)],
+    "MappingProxy": [py("mappingproxy", {"a": 1}), py("mappingproxy", {})],
+    "Path_fr": [py("jpath", "fr", "f.txt"), py("jpath", "fr", "d/g.txt")], "Path_fc": [py("jpath", "fc", "new.txt")],
+    "Path_dc": [py("jpath", "dc", "d")], "Path_dw": [py("jpath", "dw", "d")],
+}  # fmt: skip
+# plain typed values of the core leaves: used only to fill native containers (tuple / set objects)
+PLAIN_TYPED = {"str": ["a", "1"], "int": [1, 0], "float": [0.5, 1.0], "bool": [True, False]}
+
+
+def has_native(v):
+    if isinstance(v, dict):
+        return set(v) == {"__py__"} or any(has_native(x) for x in v.values())
+    if isinstance(v, list):
+        return any(has_native(x) for x in v)
+    return False
+
+
+def realise(v):
+    """JSON value with native descriptors -> Python objects (Python constructors only; jsonargparse Path types by
+    their public constructor, relative to the current directory)."""
+    if isinstance(v, list):
+        return [realise(x) for x in v]
+    if not isinstance(v, dict):
+        return v
+    if set(v) != {"__py__"}:
+        return {k: realise(x) for k, x in v.items()}
+    kind, *a = v["__py__"]
+    if kind in ("E", "EY", "ES"):
+        from mc.fixtures.c10 import lib
+
+        return getattr(lib, kind)[a[0]]
+    if kind == "pathlib":
+        import pathlib
+
+        return pathlib.Path(a[0])
+    if kind == "complex":
+        return complex(a[0], a[1])
+    if kind == "Decimal":
+        import decimal
+
+        return decimal.Decimal(a[0])
+    if kind == "UUID":
+        import uuid
+
+        return uuid.UUID(hex=a[0])
+    if kind == "timedelta":
+        from datetime import timedelta
+
+        return timedelta(days=a[0], seconds=a[1], microseconds=a[2])
+    if kind == "bytes":
+        return bytes.fromhex(a[0])
+    if kind == "bytearray":
+        return bytearray.fromhex(a[0])
+    if kind == "range":
+        return range(a[0], a[1], a[2])
+    if kind == "Money":
+        from mc.fixtures.c10 import lib
+
+        return lib.Money(a[0])
+    if kind == "mappingproxy":
+        import types
+
+        return types.MappingProxyType(realise(a[0]))
+    if kind == "jpath":
+        import jsonargparse.typing as jt
+
+        return getattr(jt, "Path_" + a[0])(a[1])
+    if kind == "tuple":
+        return tuple(realise(x) for x in a[0])
+    if kind == "set":
+        return {realise(x) for x in a[0]}
+    raise ValueError(v)
+
+
+def native_pool(spec, inside=False):
+    """Native (already typed) values of a type spec, simplest first; [] when the JSON values are the typed form."""
+    if isinstance(spec, str):
+        if spec in NATIVE:
+            return list(NATIVE[spec])
+        return list(PLAIN_TYPED[spec]) if inside and spec in PLAIN_TYPED else []
+    ctor = spec[0]
+    subs = [native_pool(a, True) for a in spec[1:]]
+    if ctor == "Union":
+        return dedupe([v for s in subs for v in s[:2] if has_native(v)])
+    if any(not s for s in subs):
+        return []
+    s = subs[0]
+    if ctor == "Tuple2":
+        a, b = subs
+        return [py("tuple", [a[0], b[0]]), py("tuple", [a[-1], b[-1]])]
+    if ctor == "TupleVar":
+        return [py("tuple", [s[0]]), py("tuple", [s[0], s[-1]]), py("tuple", [])]
+    if ctor == "Set":
+        return [py("set", [s[0]]), py("set", [s[0], s[-1]]), py("set", [])]
+    if not has_native(s):
+        return []
+    if ctor == "Optional":
+        return s
+    if ctor in ("List", "Sequence"):
+        return [[v] for v in s[:3]] + [[s[0], s[-1]]]
+    if ctor in ("DictStr", "Mapping", "OrderedDict"):
+        return [{"k": v} for v in s[:3]] + [{"b": s[-1], "a": s[0]}]
+    return []  # DictInt: JSON keys are strings, the typed keys are ints - no descriptor form
+
+
 # -- class-like types --------------------------------------------------------------------------------
 
 CLASS_VALUES = [
@@ -491,6 +623,10 @@ def build_parser(spec, dobj, has_default):
     pkw = {}
     if spec.get("dcf"):
         pkw["default_config_files"] = [DCF]
+    if "ambient" in spec:
+        pkw["default_env"] = True  # the process environment is a source of every parse (sub-parsers inherit it)
+    if spec.get("enable_path"):
+        kw["enable_path"] = True  # the value may be given as the path of a file that holds it
     p = _new(mode, env_prefix="APP", **pkw)
     if shape == "flat":
         p.add_argument("--x", type=build_type(tspec), **kw)
@@ -551,8 +687,39 @@ def build_parser(spec, dobj, has_default):
     return p
 
 
+def place_obj(shape, v):
+    """The object handed to parse_object for a value that is not JSON (native Python objects)."""
+    if shape == "listdc":
+        return {"d": [{"x": v}, {"x": copy.deepcopy(v), "n": 2}]}
+    if shape == "dictdc":
+        return {"d": {"k": {"x": v}, "1": {"x": copy.deepcopy(v), "n": 2}}}
+    return place(shape, _Opaque(v))[0]
+
+
+class _Opaque:
+    """Wrapper that lets `place` build its argv / env texts without looking at a native value."""
+
+    def __init__(self, v):
+        self.v = v
+
+
+def _unwrap(o):
+    if isinstance(o, _Opaque):
+        return o.v
+    if isinstance(o, dict):
+        return {k: _unwrap(x) for k, x in o.items()}
+    if isinstance(o, list):
+        return [_unwrap(x) for x in o]
+    return o
+
+
 def place(shape, v):
     """Where the value goes: (object for parse_object / config text, argv list, environment dict or None)."""
+    if isinstance(v, _Opaque):
+        if shape in ("optdc", "listdc", "dictdc"):
+            return {"d": {"x": v.v}}, None, None
+        obj, _argv, _env = place(shape, "")
+        return _subst_leaf(obj, v.v), None, None
     t = argv_text(v)
     if shape == "flat":
         return {"x": v}, ["--x=" + t], {"APP_X": t}
@@ -585,6 +752,40 @@ def place(shape, v):
     raise ValueError(shape)
 
 
+AMBIENT_SHAPES = {  # shape -> (environment variable of the target argument, (variable, text) of a sibling argument)
+    "flat": ("APP_X", ("APP_KEEP", "from-env")),
+    "group": ("APP_G__X", ("APP_G__H__Y", "4.5")),
+    "sub_a": ("APP_A__X", ("APP_TOP", "2.5")),
+    "sub_bc": ("APP_B__C__Y", ("APP_B__M", "7")),
+    "inner": ("APP_INNER__X", ("APP_KEEP", "from-env")),
+}
+
+
+ENVCONF = "envconf.yaml"
+
+
+def ambient_env(spec, value, cwd):
+    """-> (environment variables, files) in force for the whole life of a parser spec with "ambient": value.
+    With "ambient_cfg" the environment names a config file (APP_CFG, absolute path) that holds the value."""
+    shape = spec["shape"]
+    name, (sib, sibtext) = AMBIENT_SHAPES[shape]
+    if spec.get("ambient_cfg"):
+        import os
+
+        obj = place(shape, value)[0]
+        if shape == "flat":
+            obj = {**obj, "keep": "from-env-file"}
+        return {"APP_CFG": os.path.join(cwd, ENVCONF)}, {ENVCONF: to_text(obj, spec.get("mode", "yaml"))}
+    return {name: argv_text(value), sib: sibtext}, {}
+
+
+def _subst_leaf(obj, v):
+    """Replace the (single) "" placeholder leaf that `place(shape, "")` put at the target position."""
+    if isinstance(obj, dict):
+        return {k: _subst_leaf(x, v) for k, x in obj.items()}
+    return v if obj == "" else obj
+
+
 EMPTY = {  # the inputs that give nothing but what the parser declares
     "flat": ({}, []), "group": ({}, []), "dataclass": ({}, []), "optdc": ({}, []), "listdc": ({}, []), "dictdc": ({}, []),
     "nesteddc": ({}, []), "classgroup": ({}, []), "funcgroup": ({}, []), "link": ({}, []), "inner": ({}, []),
@@ -595,6 +796,10 @@ CHANNELS = ["object", "argv", "string"]
 EMPTY_CHANNELS = ["noargs", "emptyobj", "emptystr"]
 FILE_CHANNELS = ["cfgfile", "cfgfile+override", "parse_path", "default_config_file"]
 ENV_CHANNELS = ["env"]
+NATIVE_CHANNELS = ["object-native"]  # parse_object of already typed Python objects (value = JSON with descriptors)
+# the value lives in a file of its own and the argument is given as the path of that file
+OWNFILE_CHANNELS = ["argv@file", "object@file", "string@file", "cfgfile@file", "parse_path@file", "default_config_file@file"]
+VAL = "sub/val.yaml"
 
 
 def render(spec, channel, value, cwd):
@@ -612,6 +817,23 @@ def render(spec, channel, value, cwd):
         if any("\x00" in a for a in value):
             return None
         return "parse_args", list(value), {}, None
+    if channel == "object-native":
+        return "parse_object", place_obj(shape, realise(value)), {}, None
+    if channel in OWNFILE_CHANNELS:
+        mode = spec.get("mode", "yaml")
+        files = {VAL: to_text(value, mode)}
+        how = channel.split("@")[0]
+        if how in ("cfgfile", "parse_path"):  # the path is relative to the config file that names it
+            files[CONF] = to_text(place(shape, VAL.split("/")[-1])[0], mode)
+            return ("parse_args", ["--cfg", CONF], files, SUBDIR) if how == "cfgfile" else ("parse_path", CONF, files, SUBDIR)
+        obj, argv, _env = place(shape, VAL)
+        if how == "default_config_file":  # read by every parse of this parser while the input is judged
+            return ("parse_args", list(EMPTY[shape][1]), {**files, DCF: to_text(obj, mode)}, SUBDIR) if spec.get("dcf") else None
+        if how == "argv":
+            return "parse_args", argv, files, SUBDIR
+        if how == "object":
+            return "parse_object", copy.deepcopy(obj), files, SUBDIR
+        return "parse_string", to_text(obj, mode), files, SUBDIR
     obj, argv, env = place(shape, value)
     if channel == "object":
         return "parse_object", copy.deepcopy(obj), {}, None
@@ -730,10 +952,11 @@ def parser_specs(tier):
     quick = tier == "quick"
     tasks = []
 
-    def add(shape, t, d, dform, inputs, mode="yaml", dcf=False):
+    def add(shape, t, d, dform, inputs, mode="yaml", dcf=False, **extra):
         spec = {"shape": shape, "type": t, "default": d, "dform": dform, "mode": mode}
         if dcf:
             spec["dcf"] = True
+        spec.update(extra)  # "ambient": value (process environment) [, "ambient_cfg": True], "enable_path": True
         tasks.append({"spec": spec, "inputs": inputs})
 
     def default_variants(ds, n):
@@ -762,7 +985,7 @@ def parser_specs(tier):
     # G_2: unary constructors over every leaf; binary over the core leaves; hand-picked unions and containers
     g2 = g2_unary([x for x in LEAVES]) + g2_binary(CORE) + EXTRA_UNIONS + EXTRA_CONTAINERS
     for t in g2:
-        if t[0] == "Set" and t[1] in ("Any", "bytearray", "MappingProxy", "Path_fr", "Path_fc", "Path_dc", "Path_dw", "PathLike"):
+        if t[0] == "Set" and t[1] in UNHASHABLE:
             continue  # unhashable members (jsonargparse Path objects define __eq__ without __hash__)
         ds = defaults(t)
         core_only = all(a in CORE for a in t[1:] if isinstance(a, str)) and all(isinstance(a, str) for a in t[1:])
@@ -807,6 +1030,81 @@ def parser_specs(tier):
             for d in class_defaults(t)[: 1 if quick and t == "Holder" else 2]:
                 vals = class_pool(t)
                 add(shape, t, d, "raw", inputs_for(vals if not quick else vals[:12], ["object", "argv"]))
+    # --- native values: already typed Python objects (built by Python constructors, not by the library) through
+    # parse_object and as declared defaults ("native" form)
+    for leaf in LEAVES:
+        nat = native_pool(leaf)
+        if not nat:
+            continue
+        add("flat", leaf, UNSET, "raw", inputs_for(nat, NATIVE_CHANNELS, empties=False))
+        for d in nat[: 2 if quick else len(nat)]:
+            add("flat", leaf, d, "native", inputs_for(pool(leaf, wide=False)[:2], ["object", "argv"]) + inputs_for(nat[:3], NATIVE_CHANNELS, empties=False))
+        add("flat", leaf, UNSET, "raw", inputs_for(nat[:3], NATIVE_CHANNELS, empties=False), mode="json")
+    for t in g2 + g3_types(quick):
+        if t[0] == "Set" and t[1] in UNHASHABLE:
+            continue
+        nat = native_pool(t)
+        if not nat:
+            continue
+        add("flat", t, UNSET, "raw", inputs_for(nat, NATIVE_CHANNELS, empties=False))
+        if not quick or t[0] != "Union":
+            add("flat", t, nat[0], "native", inputs_for(nat[:2], NATIVE_CHANNELS))
+    for shape in SHAPES[1:]:
+        for t in SHAPE_TYPES_QUICK if quick else SHAPE_TYPES:
+            nat = native_pool(t)
+            if nat:
+                add(shape, t, UNSET, "raw", inputs_for(nat[:3], NATIVE_CHANNELS, empties=False))
+                if shape in ("group", "dataclass", "classgroup", "sub_a"):
+                    add(shape, t, nat[0], "native", inputs_for(nat[:2], NATIVE_CHANNELS))
+    # --- ambient environment: the parser reads os.environ (default_env=True) and the variables of the target
+    # argument and of a sibling stay set for the first parse and for every transition; the inputs of the other
+    # channels override them (or not: the no-argument inputs)
+    amb_ch = CHANNELS + (["cfgfile+override"] if quick else ["cfgfile", "cfgfile+override"])
+    for leaf in LEAVES:
+        ds = defaults(leaf)
+        vals = pool(leaf, wide=False)
+        for a in ds[: (2 if leaf in CORE else 1) if quick else len(ds)]:
+            add("flat", leaf, UNSET, "raw", inputs_for(vals[:4] if quick else vals, amb_ch), ambient=a)
+        add("flat", leaf, ds[0], "raw", inputs_for(vals[:3] if quick else vals, CHANNELS), ambient=ds[-1])
+    for t in g2_unary(CORE) + EXTRA_UNIONS[: 6 if quick else None] + EXTRA_CONTAINERS:
+        ds = defaults(t)
+        for a in ds[: 1 if quick else 2]:
+            add("flat", t, UNSET, "raw", inputs_for(pool(t)[: 5 if quick else None], CHANNELS), ambient=a)
+    for shape in AMBIENT_SHAPES:
+        if shape == "flat":
+            continue
+        for t in SHAPE_TYPES_QUICK if quick else SHAPE_TYPES:
+            vals = pool(t, wide=False) if isinstance(t, str) else pool(t)
+            add(shape, t, UNSET, "raw", inputs_for(vals[: 4 if quick else 10], CHANNELS + ([] if quick else ["cfgfile"])), ambient=defaults(t)[0])
+    for t in ["Base", "Mixed", ["Optional", "Base"]]:
+        amb = class_pool(t)[3] if t != "Mixed" else DATACLASS_VALUES["Mixed"][1]
+        add("flat", t, UNSET, "raw", inputs_for(class_pool(t)[: 6 if quick else None], CHANNELS), ambient=amb)
+    for t in CORE + [["List", "float"], ["DictStr", "float"], ["Optional", "E"], ["Tuple2", "float", "E"], "Base"]:
+        if t == "Base":
+            amb, vals = class_pool(t)[3], class_pool(t)[:6]
+        else:
+            amb, vals = defaults(t)[0], (pool(t, wide=False) if isinstance(t, str) else pool(t))[: 4 if quick else 10]
+        add("flat", t, UNSET, "raw", inputs_for(vals, CHANNELS + ["cfgfile+override"]), ambient=amb, ambient_cfg=True)
+    # --- values in a file of their own: the argument is given as the path of a file that holds the value
+    # (enable_path=True; dataclass / class groups load paths anyway), so the parse result carries nested metadata
+    own_types = [["DictStr", x] for x in CORE] + [["DictInt", "int"], ["Mapping", "float"], ["OrderedDict", "int"], "Any", "MappingProxy",
+                 ["List", "float"], ["List", "E"], ["Tuple2", "float", "E"], ["Set", "str"], ["List", ["DictStr", "float"]],
+                 ["Optional", ["DictStr", "float"]], ["DictStr", ["List", "float"]], ["DictStr", ["DictStr", "float"]],
+                 ["Union", ["DictStr", "int"], ["List", "int"]], ["Union", "int", ["DictStr", "int"]]]  # fmt: skip
+    for t in own_types:
+        vals = pool(t, wide=False) if isinstance(t, str) else (pool_g3(t) if t[0] != "Union" and not isinstance(t[1], str) else pool(t))
+        vals = [v for v in vals if not isinstance(v, str)][: 5 if quick else 12]
+        add("flat", t, UNSET, "raw", inputs_for(vals, OWNFILE_CHANNELS[:5], empties=False), enable_path=True)
+        add("flat", t, defaults(t)[0], "raw", inputs_for(vals[:3], OWNFILE_CHANNELS[:2], empties=False), enable_path=True)
+        add("flat", t, UNSET, "raw", inputs_for(vals[:4], OWNFILE_CHANNELS[5:], empties=False), dcf=True, enable_path=True)
+        if t[0] == "DictStr" and not quick or t == ["DictStr", "float"]:
+            for shape in ("group", "sub_a", "inner"):
+                add(shape, t, UNSET, "raw", inputs_for(vals, OWNFILE_CHANNELS[:5], empties=False), enable_path=True)
+    for t in ["Base", "Holder", "Point", "Mixed", "Outer", ["Optional", "Base"], ["Optional", "Mixed"], ["List", "Base"], ["DictStr", "Point"], ["DictStr", "Base"]]:
+        vals = [v for v in class_pool(t) if not isinstance(v, str) and v is not None][: 4 if quick else 12]
+        for d in class_defaults(t)[: 1 if quick else 2]:
+            add("flat", t, d, "raw", inputs_for(vals, ["argv@file", "object@file", "cfgfile@file"] if quick else OWNFILE_CHANNELS[:5], empties=False), enable_path=True)
+        add("flat", t, UNSET, "raw", inputs_for(vals[:3], OWNFILE_CHANNELS[5:], empties=False), dcf=True, enable_path=True)
     # argv-only spellings: appends, nested keys, repeated options
     for t, items in ARGV_RAW:
         add("flat", t, UNSET, "raw", [["argv-raw", a] for a in items])
@@ -831,6 +1129,8 @@ def parser_specs(tier):
             out += [{"spec": x["spec"], "inputs": x["inputs"], "hashseed": hs} for x in sety]
     return out
 
+
+UNHASHABLE = ("Any", "bytearray", "MappingProxy", "Path_fr", "Path_fc", "Path_dc", "Path_dw", "PathLike")
 
 ARGV_RAW = [
     (["List", "float"], [["--x+=1"], ["--x+=1", "--x+=2"], ["--x=[1]", "--x+=[2, 3]"], ["--x=[1]", "--x=[2]"]]),
